@@ -157,6 +157,8 @@ func TestVerifDriver(t *testing.T) {
 			res = wsHold(w[1], hs, hm)
 		} else if len(w) == 3 && w[0] == "ws" {
 			res = wsSession(w[1], w[2])
+		} else if len(w) >= 2 && w[0] == "cfgserve" {
+			res = loadStartServe(w[1], backend.URL)
 		} else if len(w) >= 2 && (w[0] == "cfg" || w[0] == "cfgfile") {
 			res = loadAndStart(w[1])
 		} else if len(w) >= 2 && w[0] == "id" {
@@ -249,7 +251,7 @@ func TestVerifDriver(t *testing.T) {
 			case "req":
 				// id req <rid|-|none> <trace|-|none> <key|-> <bodylen> <eject 0|1> [upg] : with `upg` the
 				// request offers a protocol upgrade that the backend declines
-				if (len(w) == 7 || (len(w) == 8 && (w[7] == "upg" || w[7] == "own"))) && handler != nil {
+				if (len(w) == 7 || (len(w) == 8 && (w[7] == "upg" || w[7] == "own" || w[7] == "ws"))) && handler != nil {
 					mu.Lock()
 					seen = map[string]string{}
 					contacted = false
@@ -273,6 +275,15 @@ func TestVerifDriver(t *testing.T) {
 					if len(w) == 8 && w[7] == "upg" {
 						req.Header.Set("Connection", "Upgrade")
 						req.Header.Set("Upgrade", "h2c")
+					}
+					if len(w) == 8 && w[7] == "ws" {
+						// a complete WebSocket opening handshake (a GET; whatever body length it declares is a declared
+						// body), which the plain backend declines
+						req.Method = "GET"
+						req.Header.Set("Connection", "keep-alive, Upgrade")
+						req.Header.Set("Upgrade", "websocket")
+						req.Header.Set("Sec-WebSocket-Key", "dGhlIHNhbXBsZSBub25jZQ==")
+						req.Header.Set("Sec-WebSocket-Version", "13")
 					}
 					if len(w) == 8 && w[7] == "own" {
 						// (only under the names of enabled features: a disabled feature's header is an
@@ -427,6 +438,97 @@ func loadAndStart(path string) (res string) {
 		return "load=ok start=err"
 	}
 	return "load=ok start=ok"
+}
+
+// loadStartServe: the configuration file (its backend addresses are the placeholder @BACKEND@, replaced
+// by a live test backend) goes through LoadConfig, NewLoadBalancer, buildHandler and
+// createHTTPServer as in main(); when all of that succeeds one GET is sent through the server's
+// handler over a real connection: an accepted configuration that starts must serve.
+func loadStartServe(path, backendURL string) (res string) {
+	defer func() {
+		if r := recover(); r != nil {
+			res = "PANIC:" + strings.ReplaceAll(fmt.Sprint(r), " ", "_")
+		}
+	}()
+	raw, err := os.ReadFile(path)
+	if err != nil {
+		return "bad-op"
+	}
+	live := path + ".live"
+	freePort := func() string {
+		l, err := net.Listen("tcp", "127.0.0.1:0")
+		if err != nil {
+			return "1"
+		}
+		defer l.Close()
+		return strconv.Itoa(l.Addr().(*net.TCPAddr).Port)
+	}
+	text := strings.ReplaceAll(string(raw), "@BACKEND@", backendURL)
+	text = strings.ReplaceAll(text, "@MPORT@", freePort())
+	text = strings.ReplaceAll(text, "@APORT@", freePort())
+	if err := os.WriteFile(live, []byte(text), 0o600); err != nil {
+		return "bad-op"
+	}
+	defer os.Remove(live)
+	cfg, err := config.LoadConfig(live)
+	if err != nil {
+		return "load=err:" + strings.ReplaceAll(err.Error(), " ", "_")
+	}
+	lb, err := loadbalancer.NewLoadBalancer(cfg)
+	if err != nil {
+		return "load=ok start=err:" + strings.ReplaceAll(err.Error(), " ", "_")
+	}
+	defer lb.Stop()
+	h, err := buildHandler(cfg, lb)
+	if err != nil {
+		return "load=ok start=err:" + strings.ReplaceAll(err.Error(), " ", "_")
+	}
+	srv := createHTTPServer(cfg, h)
+	if srv == nil || srv.Handler == nil {
+		return "load=ok start=err:"
+	}
+	// the ancillary servers, as main() starts them (they keep running until the harness exits)
+	side := ""
+	setupMetricsServer(cfg, lb)
+	setupAdminAPIServer(cfg, lb)
+	fetch := func(url string) string {
+		for i := 0; i < 40; i++ {
+			resp, err := (&http.Client{Timeout: 2 * time.Second}).Get(url)
+			if err == nil {
+				resp.Body.Close()
+				return strconv.Itoa(resp.StatusCode)
+			}
+			time.Sleep(25 * time.Millisecond)
+		}
+		return "unreachable"
+	}
+	if cfg.Metrics.Enabled {
+		mp := cfg.Metrics.Path
+		if mp == "" {
+			mp = "/metrics"
+		}
+		side += " metrics=" + fetch(fmt.Sprintf("http://127.0.0.1:%d%s", cfg.Metrics.Port, mp)) + " mhealth=" + fetch(fmt.Sprintf("http://127.0.0.1:%d/health", cfg.Metrics.Port))
+	}
+	if cfg.AdminAPI.Enabled {
+		side += " admin=" + fetch(fmt.Sprintf("http://127.0.0.1:%d/v1/health", cfg.AdminAPI.Port))
+	}
+	front := httptest.NewServer(srv.Handler)
+	defer front.Close()
+	req, _ := http.NewRequest("GET", front.URL+"/", nil)
+	resp, err := (&http.Client{Timeout: 5 * time.Second}).Do(req)
+	if err != nil {
+		return "load=ok start=ok serve=err"
+	}
+	defer resp.Body.Close()
+	body, _ := io.ReadAll(resp.Body)
+	ids := ""
+	if cfg.Logging.RequestID.Enabled && resp.Header.Get(logging.RequestHeaderName(cfg.Logging)) == "" {
+		ids += " no-request-id"
+	}
+	if cfg.Logging.Trace.Enabled && resp.Header.Get(logging.TraceHeaderName(cfg.Logging)) == "" {
+		ids += " no-trace-id"
+	}
+	return fmt.Sprintf("load=ok start=ok serve=%d body=%d%s%s", resp.StatusCode, len(body), ids, side)
 }
 
 // wsSession: a WebSocket session through the real handler composition with the given plugin
